@@ -137,6 +137,9 @@ def run(ctx):
               not [f for f in ctx.failures if f.get("class") is None], "%d failures" % len(ctx.failures))
     end_to_end(ctx)
     all_exec_lines(ctx)
+    # the podman executable itself comes from the environment (PODMAN) and is the first word of every Exec line: it is quoted like any other
+    for odd in ("/opt/container tools/bin/podman", "/opt/it's/pod\"man", "/opt/\u00e9 \\bin/podman"):
+        all_exec_lines(ctx, podman=odd, volume=40 if ctx.tier != "thorough" else 400)
 
 
 def dq(s):
@@ -206,14 +209,14 @@ def end_to_end(ctx):
               okc == len(idx) and len(idx) > 0, "%d of %d" % (okc, len(idx)))
 
 
-def all_exec_lines(ctx):
+def all_exec_lines(ctx, podman="/usr/bin/podman", volume=None):
     """generator clause, every Exec* line of kube / container / pod units: each splits (by the spec) into the intended argv"""
     rng = ctx.rng
     def word():
         w = vlib.adv_string(rng, 4).replace("\0", "")
         return w if w and w.strip(" \t\n\r") == w and not w.startswith("-") else "g" + w.strip() + "x"
     cases, meta = [], []
-    for i in range(ctx.volume(300, 4000)):
+    for i in range(volume or ctx.volume(300, 4000)):
         gargs = [word() for _ in range(rng.randint(0, 2))]
         gline = ("GlobalArgs=%s\n" % " ".join(dq(g) for g in gargs)) if gargs else ""
         kind = rng.choice(["kube", "container", "pod"])
@@ -230,7 +233,7 @@ def all_exec_lines(ctx):
             unit = "[Pod]\nPodName=%s\n%s" % (dq(nm), gline)
             meta.append((kind, gargs, nm, None))
         cases.append(case_line("convert", "0", "/u/e%d.%s" % (i, kind), unit))
-    outs = vlib.run_impl(cases)
+    outs = vlib.run_impl(cases, extra_env={"PODMAN": podman})
     lines, where = [], []
     recs = [vlib.parse_convert(o) for o in outs]
     for i, rs in enumerate(recs):
@@ -247,9 +250,9 @@ def all_exec_lines(ctx):
     bad_n = 0
     for i, d in per.items():
         kind, gargs, x, force = meta[i]
-        base = ["/usr/bin/podman"] + gargs
+        base = [podman] + gargs
         ctx.evaluations += 1
-        ctx.count("e2e_exec_lines:" + kind)
+        ctx.count("e2e_exec_lines:" + kind + ("" if podman == "/usr/bin/podman" else ":odd-PODMAN"))
         ctx.nontrivial.add(cases[i])
         bad = None
         get = lambda k: (d.get(k) or [None])[-1]
